@@ -12,8 +12,8 @@ from bsim.sim import PROFILE_NAMES, HarnessError, Sim, World, describe_task, inn
 
 PROPERTY = 'C16'
 PLAN = {
-    'quick': [('teardown', 420)],
-    'thorough': [('teardown', 16000)],
+    'quick': [('teardown', 420), ('reuse', 300)],
+    'thorough': [('teardown', 16000), ('reuse', 20000)],
 }
 WALL_CAP = {'quick': 160, 'thorough': 1700}
 EVIDENCE = {
@@ -47,7 +47,12 @@ FAULTS = ['local_disconnect', 'remote_disconnect', 'link_loss_both', 'transport_
 def gen_teardown(rng, tier, seed):
     proc = rng.choice(LE_PROCS + CLASSIC_PROCS)
     return {'proc': proc, 'fault': rng.choice(FAULTS), 'profile': rng.choice(['zero', 'lan', 'radio', 'skewed', 'burst', 'burst-radio']), 'max_k': 60 if tier == 'quick' else 200,
-            'bystander': rng.random() < 0.4}
+            'bystander': rng.random() < 0.4,
+            # a host that is not reading its transport while the fault happens: the events pile up and are read in one go
+            'stall': rng.choice([None, None, None, [0, 0.05], [1, 0.05], [0, 0.3], [1, 0.3]]),
+            # where the boundaries are counted: messages on the air, or (transport loss only) HCI packets read by the host that loses
+            # its transport - the loss then happens right after packet k, before any task woken by that packet has run
+            'boundary': rng.choice(['air', 'air', 'hci'])}
 
 
 class Ctx:
@@ -304,6 +309,28 @@ def _lose_link(sim, ctrl, handles):
             sim.call(ctrl.on_classic_disconnected, addr, 0x08)
 
 
+def _transport_loss_now(sim, cx, side):
+    """Transport loss from INSIDE the loop (called in the delivery of an HCI packet): same effect as _fire's transport loss."""
+    world = cx.world
+    nd = world[side]
+    nd.h2c.closed = True
+    nd.c2h.closed = True
+    lost_addrs = {str(nd.controller.public_address), str(nd.controller.random_address)}
+    try:
+        nd.host.on_transport_lost()
+    finally:
+        for k, other in enumerate(world.nodes):
+            if k == side:
+                continue
+            oc = other.controller
+            for conn in list(oc.le_connections.values()):
+                if str(conn.peer_address) in lost_addrs:
+                    oc.on_le_disconnected(conn, 0x08)
+            for addr, conn in list(oc.classic_connections.items()):
+                if str(conn.peer_address) in lost_addrs and conn.handle != 0:
+                    oc.on_classic_disconnected(addr, 0x08)
+
+
 def _fire(sim, cx, kind):
     """Inject the fault. Returns set of node indices whose controller became unreachable."""
     world = cx.world
@@ -352,23 +379,52 @@ def _one(case, k):
         cx.extra_tasks = []
         world = cx.world
         base = _air(world)
+        hci_mode = case.get('boundary') == 'hci' and case['fault'].startswith('transport_loss')
+        ini = getattr(cx, 'initiator', 0)
+        lost_side = ini if case['fault'] == 'transport_loss_initiator' else 1 - ini
+        hch = world[lost_side].c2h
+        hbase = hch.delivered
         started = [(name, sim.loop.create_task(coro)) for name, coro in cx.start()]
         tasks = [t for _, t in started]
         if k is None:
             st = sim.loop.drive(lambda: all(t.done() for t in tasks), vt_budget=60.0, step_budget=500_000)
             sim.loop.settle(vt_budget=2.0)
-            n = _air(world) - base
+            n = (hch.delivered - hbase) if hci_mode else (_air(world) - base)
             ok = st == 'done' and all(t.exception() is None for t in tasks if not t.cancelled())
             return {'n': n, 'ok': ok, 'violations': [], 'in_flight': False, 'why': None if ok else (st, [repr(t.exception()) for t in tasks if t.done() and not t.cancelled() and t.exception()])}
-        sim.loop.drive(lambda: _air(world) - base >= k or all(t.done() for t in tasks), vt_budget=30.0, step_budget=300_000)
-        in_flight = not all(t.done() for t in tasks)
+        inline = {}
+        if hci_mode and k > 0:
+            def hook(item):
+                if not inline and hch.delivered - hbase >= k:
+                    inline['in_flight'] = not all(t.done() for t in tasks)
+                    inline['handles'] = [cx.c0.handle if cx.c0 else None, cx.c1.handle if cx.c1 else None]
+                    try:
+                        _transport_loss_now(sim, cx, lost_side)
+                    except Exception as e:  # what the transport's reader would see
+                        inline['exc'] = type(e).__name__
+                        sim.probe(f'on_transport_lost_raised:{type(e).__name__}')
+            hch.on_delivered = hook
+            sim.loop.drive(lambda: bool(inline) or all(t.done() for t in tasks), vt_budget=30.0, step_budget=300_000)
+            hch.on_delivered = None
+        else:
+            sim.loop.drive(lambda: _air(world) - base >= k or all(t.done() for t in tasks), vt_budget=30.0, step_budget=300_000)
+        in_flight = inline.get('in_flight', not all(t.done() for t in tasks))
         if cx.c0 is None:
             # pending-connect procedures: the connection exists from some k on
             by = {id(cx.by0), id(cx.by2)}
             cx.c0 = next((c for c in world[0].device.connections.values() if id(c) not in by), None)
             cx.c1 = next((c for c in world[1].device.connections.values() if id(c) not in by), None)
         handles = [cx.c0.handle if cx.c0 else None, cx.c1.handle if cx.c1 else None]
-        unreachable = _fire(sim, cx, case['fault'])
+        if case.get('stall') and not case['fault'].startswith('transport_loss'):
+            world[case['stall'][0]].c2h.stall(case['stall'][1])
+            sim.fault('host_stalled_during_fault')
+        if inline:
+            unreachable = {lost_side}
+            handles = inline['handles']
+            sim.fault(case['fault'])
+            sim.fault('transport_lost_right_after_an_hci_packet')
+        else:
+            unreachable = _fire(sim, cx, case['fault'])
         # quiescence, then up to 60 virtual seconds so that protocol timeouts may fire
         everything = tasks + [t for _, t in cx.extra_tasks]
         sim.loop.drive(lambda: all(t.done() for t in everything), vt_budget=60.0, step_budget=600_000)
@@ -531,4 +587,89 @@ def run_teardown(case):
             'nontrivial': in_flight_hits > 0, 'evaluations': evaluations, 'distinct_extra': n + 1}
 
 
-SCENARIOS = {'teardown': (gen_teardown, run_teardown)}
+# ====================================================================================== handle re-use right after a disconnection
+def gen_reuse(rng, tier, seed):
+    return {'profile': rng.choice(['burst', 'burst', 'burst-radio', 'zero', 'lan']), 'adv_delay': rng.choice([0.0, 0.0, 0.001, 0.004]),
+            'disc_delay': rng.choice([0.0, 0.0, 0.001]), 'indicate': rng.random() < 0.5, 'who': rng.choice(['client', 'client', 'server']),
+            'stall': rng.random() < 0.8, 'stall_s': rng.choice([0.05, 0.2, 0.5])}
+
+
+def run_reuse(case):
+    """A client writes a CCCD and its connection ends at once; a new connection (another peer) is given the same handle while the
+    write is still being processed. Nothing of the old connection may come back to life under the new one."""
+    from bumble import gatt
+    from bumble.device import Peer
+
+    sim = Sim(case['seed'], case.get('profile', 'burst'), slow_node='N1')
+    try:
+        world = World(sim, 3)
+        srv = world[1].device
+        P = gatt.Characteristic.Properties
+        ch = gatt.Characteristic('F4C1', P.READ | P.NOTIFY | P.INDICATE, gatt.Characteristic.READABLE, b'v0')
+        srv.add_service(gatt.Service('F3C0', [ch]))
+        world.power_on()
+        # the server device is the central of both links: its pending connection to N2 completes as soon as N2 advertises
+        cs, cc = world.connect_le(1, 0)
+        old_handle = cs.handle
+        peer = Peer(cc)
+        sim.must(peer.discover_all(), 'discover')
+        proxy = next(c for s_ in peer.services for c in s_.characteristics if c.uuid == ch.uuid)
+        got2 = []
+        world[2].device.l2cap_channel_manager.register_fixed_channel(4, lambda h, pdu: got2.append(bytes(pdu)))
+        pend = sim.loop.create_task(srv.connect(world[2].device.random_address, timeout=20.0))
+        sim.loop.settle(vt_budget=1.0)
+
+        async def client_side():
+            # the CCCD write itself (subscribe() may first look for the descriptor)
+            t = asyncio.ensure_future(peer.gatt_client.write_value(ch.end_group_handle, b'\x02\x00' if case['indicate'] else b'\x01\x00', with_response=True))
+            if case['disc_delay']:
+                await asyncio.sleep(case['disc_delay'])
+            else:
+                await asyncio.sleep(0)
+            try:
+                await (cc if case['who'] == 'client' else cs).disconnect()
+            except Exception:
+                pass
+            try:
+                await t
+            except BaseException:
+                pass
+
+        async def newcomer():
+            if case['adv_delay']:
+                await asyncio.sleep(case['adv_delay'])
+            await world[2].device.start_advertising(advertising_interval_min=20.0, auto_restart=False)
+
+        sim.fault('disconnect_then_handle_reused')
+        if case.get('stall', True):
+            # the server's host is not reading its transport for a while: the write, the disconnection and the new connection are
+            # all waiting for it when it resumes
+            world[1].c2h.stall(case.get('stall_s', 0.2))
+            sim.fault('server_host_stalled')
+        t1 = sim.loop.create_task(client_side())
+        t2 = sim.loop.create_task(newcomer())
+        sim.loop.drive(lambda: t1.done() and t2.done() and pend.done(), vt_budget=30.0, step_budget=400_000)
+        sim.loop.settle(vt_budget=2.0)
+        if not pend.done() or pend.cancelled() or pend.exception() is not None:
+            return result(sim, nontrivial=False)
+        new = pend.result()
+        reused = new.handle == old_handle
+        if reused:
+            sim.probe('new_connection_got_the_old_handle')
+        gs = srv.gatt_server
+        stale = [b for b in gs.subscribers if (b is cs or getattr(b, 'connection', None) is cs) and any(v != b'\x00\x00' for v in gs.subscribers[b].values())]
+        if stale and srv.connections.get(old_handle) is not cs:
+            sim.violation_once('stale:subscribers', f'stale-state:gatt_server.subscribers:after-handle-reuse={int(reused)}', 'the subscription of the closed connection is back in Server.subscribers')
+        got2.clear()
+        st, t = sim.run(gs.notify_subscribers(ch, b'news'), 40.0)
+        st, t = sim.run(gs.indicate_subscribers(ch, b'news'), 40.0)
+        sim.loop.settle(vt_budget=2.0)
+        if any(p[:1] in (b'\x1b', b'\x1d') for p in got2):
+            sim.violation_once('cross', f'notification-to-a-peer-that-never-subscribed:after-handle-reuse={int(reused)}', f'N2 received {[p.hex() for p in got2][:2]}')
+        sim.trace.shape(case['who'], reused, case['indicate'], case['profile'], case.get('stall'), case.get('stall_s'), case['adv_delay'], case['disc_delay'])
+        return result(sim, nontrivial=reused)
+    finally:
+        sim.close()
+
+
+SCENARIOS = {'teardown': (gen_teardown, run_teardown), 'reuse': (gen_reuse, run_reuse)}
